@@ -279,9 +279,41 @@ func (w *Walker) expand(st *State, e ast.Expr, pol bool) []*State {
 	}
 	if w.assume(st, e, pol) {
 		st.Taken = append(st.Taken, Fact{Expr: e, Pol: pol, At: len(st.Steps)})
+		w.okImplies(st, e, pol)
 		return []*State{st}
 	}
 	return nil
+}
+
+// okImplies encodes the repository's comma-ok idiom for errors: after `v, ok := asError(err)`
+// (errors.As into a *Error), ok == true means v is non-nil.
+func (w *Walker) okImplies(st *State, e ast.Expr, pol bool) {
+	id, isID := Unparen(e).(*ast.Ident)
+	if !isID || !pol {
+		return
+	}
+	obj := ObjOf(w.Info, id)
+	if obj == nil {
+		return
+	}
+	for i := len(st.Steps) - 1; i >= 0; i-- {
+		as, ok := st.Steps[i].(*ast.AssignStmt)
+		if !ok || len(as.Lhs) != 2 || len(as.Rhs) != 1 || ObjOf(w.Info, as.Lhs[1]) != obj {
+			continue
+		}
+		call, ok := as.Rhs[0].(*ast.CallExpr)
+		if !ok {
+			return
+		}
+		if f, ok := Callee(w.Info, call).(*types.Func); ok && f.Name() == "asError" {
+			if v, ok := Unparen(as.Lhs[0]).(*ast.Ident); ok && v.Name != "_" {
+				n := &ast.Ident{Name: "nil", NamePos: v.Pos()}
+				w.Info.Uses[n] = types.Universe.Lookup("nil")
+				w.assume(st, &ast.BinaryExpr{X: v, Op: token.EQL, OpPos: v.Pos(), Y: n}, false)
+			}
+		}
+		return
+	}
 }
 
 // assume adds a fact; false if it contradicts a live one.
@@ -377,9 +409,49 @@ func (w *Walker) learn(st *State, lhs, rhs ast.Expr) {
 	default:
 		if b, isB := ObjOf(w.Info, rhs).(*types.Const); isB && b.Parent() == types.Universe && (b.Name() == "true" || b.Name() == "false") {
 			w.assume(st, id, b.Name() == "true")
+			return
+		}
+		// x = wrapIf…(y) with y known non-nil: x is non-nil
+		if call, isCall := rhs.(*ast.CallExpr); isCall && NilPreserving != nil {
+			if f, ok := Callee(w.Info, call).(*types.Func); ok && NilPreserving(f) {
+				for _, a := range call.Args {
+					aid, isID := Unparen(a).(*ast.Ident)
+					if !isID {
+						continue
+					}
+					nilKey, _ := canonical(w.Info, &ast.BinaryExpr{X: aid, Op: token.EQL, Y: nilID()}, true)
+					for _, g := range st.Facts {
+						if g.key == nilKey && !g.cpol {
+							w.assume(st, &ast.BinaryExpr{X: id, Op: token.EQL, OpPos: rhs.Pos(), Y: nilID()}, false)
+							return
+						}
+					}
+				}
+			}
+		}
+		// a plain copy `x = y` inherits what is known about y's nilness / truth
+		if rid, isID := rhs.(*ast.Ident); isID {
+			if _, isVar := ObjOf(w.Info, rid).(*types.Var); isVar {
+				nilKey, _ := canonical(w.Info, &ast.BinaryExpr{X: rid, Op: token.EQL, Y: nilID()}, true)
+				boolKey, _ := canonical(w.Info, rid, true)
+				for _, g := range st.Facts {
+					switch g.key {
+					case nilKey:
+						w.assume(st, &ast.BinaryExpr{X: id, Op: token.EQL, OpPos: rhs.Pos(), Y: nilID()}, g.cpol)
+						return
+					case boolKey:
+						w.assume(st, id, g.cpol)
+						return
+					}
+				}
+			}
 		}
 	}
 }
+
+// NilPreserving is installed by the loader: it reports whether a first-party function returns nil
+// only for a nil argument (see core/nilpreserving.go).
+var NilPreserving func(f *types.Func) bool
 
 // NeverNil recognises expressions whose value cannot be nil.
 func NeverNil(info *types.Info, e ast.Expr) bool {
@@ -579,4 +651,25 @@ func (s *State) ConstStringOnPath(info *types.Info, e ast.Expr, unknown func(ast
 		unknown(e)
 	}
 	return "", false
+}
+
+// ConstObjOnPath resolves e to a named constant, following variables to their last assignment on
+// this path (a header name chosen into a local by a branch or an inlined helper).
+func (s *State) ConstObjOnPath(info *types.Info, e ast.Expr) *types.Const {
+	for depth := 0; depth < 4; depth++ {
+		e = Unparen(e)
+		if c := ConstObj(info, e); c != nil {
+			return c
+		}
+		obj := ObjOf(info, e)
+		if obj == nil {
+			return nil
+		}
+		rhs := s.LastAssigned(info, obj)
+		if rhs == nil {
+			return nil
+		}
+		e = rhs
+	}
+	return nil
 }
